@@ -8,6 +8,8 @@ package spec
 // executor's reachability witnesses against the real code.
 
 import (
+	"bytes"
+	"encoding/json"
 	"fmt"
 	"math"
 	"reflect"
@@ -194,4 +196,53 @@ func vDeepValueEq(a, b reflect.Value, seen map[[2]uintptr]bool) bool {
 	default:
 		return reflect.DeepEqual(a.Interface(), b.Interface())
 	}
+}
+
+func vJSONEq(a, b []byte) bool {
+	var x, y interface{}
+	if json.Unmarshal(a, &x) != nil || json.Unmarshal(b, &y) != nil {
+		return false
+	}
+	return reflect.DeepEqual(x, y)
+}
+func vJSONBytesEq(a, b []byte) bool { return bytes.Equal(a, b) }
+func vJSONValid(a []byte) bool      { return json.Valid(a) }
+func vJSONNoDup(a []byte) bool {
+	dec := json.NewDecoder(bytes.NewReader(a))
+	var walk func() bool
+	walk = func() bool {
+		tok, err := dec.Token()
+		if err != nil {
+			return true
+		}
+		d, ok := tok.(json.Delim)
+		if !ok {
+			return true
+		}
+		switch d {
+		case '{':
+			seen := map[string]bool{}
+			for dec.More() {
+				kt, _ := dec.Token()
+				k, _ := kt.(string)
+				if seen[k] {
+					return false
+				}
+				seen[k] = true
+				if !walk() {
+					return false
+				}
+			}
+			dec.Token()
+		case '[':
+			for dec.More() {
+				if !walk() {
+					return false
+				}
+			}
+			dec.Token()
+		}
+		return true
+	}
+	return walk()
 }
